@@ -98,13 +98,18 @@ theorem parsed_operator_has_method (s : Str) (t : List Str) (h : parse s = some 
 
 /-! ### numeric operators -/
 
+/-- the documented meaning of the numeric comparisons, on rationals -/
+def NumOp.meaning : NumOp → Rat → Rat → Bool
+  | .ge, a, b => decide (b ≤ a)
+  | .ne, a, b => decide (a ≠ b)
+  | .le, a, b => decide (a ≤ b)
+  | .lt, a, b => decide (a < b)
+  | .eq, a, b => decide (a = b)
+  | .gt, a, b => decide (b < a)
+
 /-- comparison of two finite floats is comparison of the rationals -/
-theorem lemma_numsem_fin (o : NumOp) (a b : Rat) :
-    o.sem (.fin a) (.fin b) =
-      match o with
-      | .ge => decide (b ≤ a) | .ne => decide (a ≠ b) | .le => decide (a ≤ b)
-      | .lt => decide (a < b) | .eq => decide (a = b) | .gt => decide (b < a) := by
-  cases o <;> simp only [NumOp.sem, PyNum.cmp] <;>
+theorem lemma_numsem_fin (o : NumOp) (a b : Rat) : o.sem (.fin a) (.fin b) = o.meaning a b := by
+  cases o <;> simp only [NumOp.sem, PyNum.cmp, NumOp.meaning] <;>
     by_cases h1 : a < b <;> by_cases h2 : a = b <;> simp [h1, h2] <;> grind
 
 theorem lemma_match_unary (op : Str) (k : OpKind) (hop : op ∈ Gen.unaryLits)
@@ -124,43 +129,43 @@ theorem lemma_match_num (op : Str) (o : NumOp) (hop : op ∈ Gen.unaryLits)
 theorem match_op_legacy_eq (v : Str) {ws0 ws1 x rest : Str} (S : UnaryShape ws0 ws1 x rest) {a b : Rat}
     (hv : pyFloat v = .num (.fin a)) (hy : pyFloat x = .num (.fin b)) :
     matchSpec v (ws0 ++ (['='] ++ (ws1 ++ (x ++ rest)))) = .ok (decide (b ≤ a)) := by
-  rw [lemma_match_num _ .ge (by decide) (by decide) v S hv hy, lemma_numsem_fin]
+  rw [lemma_match_num _ .ge (by decide) (by decide) v S hv hy, lemma_numsem_fin]; rfl
 
 /-- `!= x` -/
 theorem match_op_ne (v : Str) {ws0 ws1 x rest : Str} (S : UnaryShape ws0 ws1 x rest) {a b : Rat}
     (hv : pyFloat v = .num (.fin a)) (hy : pyFloat x = .num (.fin b)) :
     matchSpec v (ws0 ++ (['!', '='] ++ (ws1 ++ (x ++ rest)))) = .ok (decide (a ≠ b)) := by
-  rw [lemma_match_num _ .ne (by decide) (by decide) v S hv hy, lemma_numsem_fin]
+  rw [lemma_match_num _ .ne (by decide) (by decide) v S hv hy, lemma_numsem_fin]; rfl
 
 /-- `<= x` -/
 theorem match_op_le (v : Str) {ws0 ws1 x rest : Str} (S : UnaryShape ws0 ws1 x rest) {a b : Rat}
     (hv : pyFloat v = .num (.fin a)) (hy : pyFloat x = .num (.fin b)) :
     matchSpec v (ws0 ++ (['<', '='] ++ (ws1 ++ (x ++ rest)))) = .ok (decide (a ≤ b)) := by
-  rw [lemma_match_num _ .le (by decide) (by decide) v S hv hy, lemma_numsem_fin]
+  rw [lemma_match_num _ .le (by decide) (by decide) v S hv hy, lemma_numsem_fin]; rfl
 
 /-- `< x` -/
 theorem match_op_lt (v : Str) {ws0 ws1 x rest : Str} (S : UnaryShape ws0 ws1 x rest) {a b : Rat}
     (hv : pyFloat v = .num (.fin a)) (hy : pyFloat x = .num (.fin b)) :
     matchSpec v (ws0 ++ (['<'] ++ (ws1 ++ (x ++ rest)))) = .ok (decide (a < b)) := by
-  rw [lemma_match_num _ .lt (by decide) (by decide) v S hv hy, lemma_numsem_fin]
+  rw [lemma_match_num _ .lt (by decide) (by decide) v S hv hy, lemma_numsem_fin]; rfl
 
 /-- `== x` -/
 theorem match_op_eq (v : Str) {ws0 ws1 x rest : Str} (S : UnaryShape ws0 ws1 x rest) {a b : Rat}
     (hv : pyFloat v = .num (.fin a)) (hy : pyFloat x = .num (.fin b)) :
     matchSpec v (ws0 ++ (['=', '='] ++ (ws1 ++ (x ++ rest)))) = .ok (decide (a = b)) := by
-  rw [lemma_match_num _ .eq (by decide) (by decide) v S hv hy, lemma_numsem_fin]
+  rw [lemma_match_num _ .eq (by decide) (by decide) v S hv hy, lemma_numsem_fin]; rfl
 
 /-- `>= x` -/
 theorem match_op_ge (v : Str) {ws0 ws1 x rest : Str} (S : UnaryShape ws0 ws1 x rest) {a b : Rat}
     (hv : pyFloat v = .num (.fin a)) (hy : pyFloat x = .num (.fin b)) :
     matchSpec v (ws0 ++ (['>', '='] ++ (ws1 ++ (x ++ rest)))) = .ok (decide (b ≤ a)) := by
-  rw [lemma_match_num _ .ge (by decide) (by decide) v S hv hy, lemma_numsem_fin]
+  rw [lemma_match_num _ .ge (by decide) (by decide) v S hv hy, lemma_numsem_fin]; rfl
 
 /-- `> x` -/
 theorem match_op_gt (v : Str) {ws0 ws1 x rest : Str} (S : UnaryShape ws0 ws1 x rest) {a b : Rat}
     (hv : pyFloat v = .num (.fin a)) (hy : pyFloat x = .num (.fin b)) :
     matchSpec v (ws0 ++ (['>'] ++ (ws1 ++ (x ++ rest)))) = .ok (decide (b < a)) := by
-  rw [lemma_match_num _ .gt (by decide) (by decide) v S hv hy, lemma_numsem_fin]
+  rw [lemma_match_num _ .gt (by decide) (by decide) v S hv hy, lemma_numsem_fin]; rfl
 
 /-- All seven numeric operators, any text on either side: the result is `float(v) <op> float(x)`
     as `numCmp` computes it - in particular `ValueError` as soon as one side is not a number
@@ -188,13 +193,7 @@ theorem numeric_ops_on_decimal_texts (op : Str) (o : NumOp) (hop : op ∈ Gen.un
     (h1 : ip1 ≠ [] ∧ Digits ip1 ∧ Digits fp1) (h2 : ip2 ≠ [] ∧ Digits ip2 ∧ Digits fp2)
     {ws0 ws1 rest : Str} (hw0 : White ws0) (hw1 : White ws1) (hne : ws1 ≠ []) (hr : Ends rest) :
     matchSpec (decText n1 ip1 fp1) (ws0 ++ (op ++ (ws1 ++ (decText n2 ip2 fp2 ++ rest))))
-      = .ok (match o with
-        | .ge => decide (decValue n2 ip2 fp2 ≤ decValue n1 ip1 fp1)
-        | .ne => decide (decValue n1 ip1 fp1 ≠ decValue n2 ip2 fp2)
-        | .le => decide (decValue n1 ip1 fp1 ≤ decValue n2 ip2 fp2)
-        | .lt => decide (decValue n1 ip1 fp1 < decValue n2 ip2 fp2)
-        | .eq => decide (decValue n1 ip1 fp1 = decValue n2 ip2 fp2)
-        | .gt => decide (decValue n2 ip2 fp2 < decValue n1 ip1 fp1)) := by
+      = .ok (o.meaning (decValue n1 ip1 fp1) (decValue n2 ip2 fp2)) := by
   have S : UnaryShape ws0 ws1 (decText n2 ip2 fp2) rest :=
     ⟨hw0, hw1, hne, lemma_decimal_atom n2 ip2 fp2 h2.1 h2.2.1 h2.2.2, hr⟩
   rw [lemma_match_num op o hop hk _ S (decimal_text_value n1 ip1 fp1 h1.1 h1.2.1 h1.2.2)
@@ -391,10 +390,10 @@ theorem range_in_brackets (v : Str) (lb rb : Char) (hlb : lb = '[' ∨ lb = '(')
     · exact ⟨h4.1, h4.2, hb2⟩
   rw [match_op_range_in v h0 hit hr]
   have hgt : NumOp.gt.sem (.fin a) (.fin b) = false := by
-    rw [lemma_numsem_fin]; simp; exact Rat.not_lt.mpr hab
+    rw [lemma_numsem_fin]; simp [NumOp.meaning]; exact Rat.not_lt.mpr hab
   simp only [rangeIn, hv, litFloat, ha, hb, hgt]
   rcases hlb with rfl | rfl <;> rcases hrb with rfl | rfl <;>
-    simp [lemma_numsem_fin]
+    simp [lemma_numsem_fin, NumOp.meaning]
 
 /-- bounds in the wrong order raise `TypeError`, whatever the brackets -/
 theorem range_in_reversed_bounds_raise (v : Str) {ws0 w1 b1 w2 lo w3 hi w4 b2 rest : Str} {q a b : Rat}
@@ -405,7 +404,7 @@ theorem range_in_reversed_bounds_raise (v : Str) {ws0 w1 b1 w2 lo w3 hi w4 b2 re
       = .err .typeError := by
   rw [match_op_range_in v h0 hit hr]
   have hgt : NumOp.gt.sem (.fin a) (.fin b) = true := by
-    rw [lemma_numsem_fin]; simp; exact hab
+    rw [lemma_numsem_fin]; simp [NumOp.meaning]; exact hab
   simp [rangeIn, hv, litFloat, ha, hb, hgt]
 
 /-! ### no operator -/
